@@ -80,6 +80,11 @@ def client_api():
     fb.message("ShelveBookRequest", [("name", "string"), ("library", "string")])
     fb.method(s, "ShelveBook", "ShelveBookRequest", "Book", http=("post", "/v1/{name=shelves/*/books/*}:shelve", "*"),
               sigs=["name,library"])
+    # dotted signature entries whose leaf is a REPEATED field; the request has a top-level field of the leaf's name too
+    fb.message("Tagged", [("name", "string"), ("tags", "string", {"repeated": True})])
+    fb.message("RetagBookRequest", [("book", "msg:Tagged"), ("tags", "string", {"repeated": True})])
+    fb.method(s, "RetagBook", "RetagBookRequest", "Book", http=("post", "/v1/{book.name=shelves/*/books/*}:retag", "*"),
+              sigs=["book.name,book.tags"])
     fb.method(s, "StreamBooks", "StreamBooksRequest", "Book", http=("get", "/v1/{parent=shelves/*}/books:stream"),
               sigs=["parent"], sstream=True)
     fb.method(s, "Upload", "UploadRequest", "Book", cstream=True)
